@@ -3,6 +3,7 @@
    machine model plus the end-to-end fault runs of this check. *)
 From Coq Require Import ZArith List.
 From WV Require Import Model.Backoff Proofs.BackoffP.
+From WV Require Model.FsmPub Proofs.FsmPubP.
 Import ListNotations.
 Open Scope Z_scope.
 
@@ -34,5 +35,20 @@ Print Assumptions C06_failures_grow.
 Theorem C06_one_sleep_per_failure : forall n os, length (loop_sleeps n os) = length (filter negb os).
 Proof. exact loop_one_sleep_per_failure. Qed.
 Print Assumptions C06_one_sleep_per_failure.
+
+(* Recovers by itself: from EVERY reachable state of a connection that has not been closed
+   (whatever faults, refused dials and lost transports led there), if dials succeed from now on
+   the continuation FsmPubP.recover - at most six steps, all of them steps of the library's own
+   loops, the timer and the dial outcome; no user action - ends in Ready, published, with a fresh
+   transport recorded and watched. *)
+Theorem C06_recovers : forall ls, WV.Proofs.FsmPubP.well_used ls ->
+  let s := WV.Model.FsmPub.exec WV.Model.FsmPub.init ls in
+  WV.Model.FsmPub.torn s = false ->
+  let s' := WV.Model.FsmPub.exec s (WV.Proofs.FsmPubP.recover s) in
+  WV.Model.FsmPub.acst s' = WV.Model.FsmPub.Ready /\ WV.Model.FsmPub.csm s' = WV.Model.FsmPub.Ready /\
+  (length (WV.Proofs.FsmPubP.recover s) <= 6)%nat /\
+  exists t, WV.Model.FsmPub.tr s' = Some t /\ WV.Model.FsmPub.mem t (WV.Model.FsmPub.fired s') = false /\ WV.Model.FsmPub.r s' = WV.Model.FsmPub.RWait t.
+Proof. exact WV.Proofs.FsmPubP.recovers. Qed.
+Print Assumptions C06_recovers.
 
 Example C06_documented_sane : sane documented. Proof. exact documented_sane. Qed.
